@@ -39,6 +39,36 @@ func init() {
 	app.RootCmd().AddCommand(newRouterCmd())
 }
 
+// checkYamlKeys returns an error if a mapping in v has a key that is not a
+// string (e.g. "1: 2", "true: 1"). The yaml decoder turns such a mapping into a
+// map[any]any, which makes the struct decoder panic.
+func checkYamlKeys(v any) error {
+	switch v := v.(type) {
+	case map[string]any:
+		for _, e := range v {
+			if err := checkYamlKeys(e); err != nil {
+				return err
+			}
+		}
+	case map[any]any:
+		for k, e := range v {
+			if _, ok := k.(string); !ok {
+				return fmt.Errorf("invalid key %v, keys must be strings", k)
+			}
+			if err := checkYamlKeys(e); err != nil {
+				return err
+			}
+		}
+	case []any:
+		for _, e := range v {
+			if err := checkYamlKeys(e); err != nil {
+				return err
+			}
+		}
+	}
+	return nil
+}
+
 func newRouterCmd() *cobra.Command {
 	var cfgPath string
 	c := &cobra.Command{
@@ -62,6 +92,9 @@ func newRouterCmd() *cobra.Command {
 			// after a "---" line.
 			if err := yamlDecoder.Decode(new(any)); !errors.Is(err, io.EOF) {
 				logger.Fatal().Err(err).Msg("config file must contain exactly one yaml document")
+			}
+			if err := checkYamlKeys(m); err != nil {
+				logger.Fatal().Err(err).Msg("failed to decode yaml config")
 			}
 			decoder, err := mapstructure.NewDecoder(&mapstructure.DecoderConfig{
 				ErrorUnused: true,
